@@ -47,7 +47,7 @@ def gen_case(rng: random.Random, tier: str):
     if rng.random() < 0.5:
         g.struct(depth=0, kind="struct")
     g.struct(depth=0, kind="union", root=True)
-    defs = {"defines": g.defines, "enums": g.enums, "structs": g.structs}
+    defs = {"defines": g.defines, "enums": g.enums, "typedefs": g.typedefs, "structs": g.structs}
     root = defs["structs"][-1]
     locs = [p for p in gen.leaf_paths(defs, root) if p["kind"] not in ("struct", "union") or p["dims"]]
     ops = []
